@@ -6,7 +6,7 @@ from props.pathscommon import graph_case, exhaustive_graphs, all_queries, base_p
 
 class C15(PropBase):
     id = 'C15'
-    obs = {'tdag'}
+    obs = {'tdag', 'occname'}
     rule = ('temporal graph = <= 5 nodes, <= 7 instants, <= 12 point/interval interactions, both classes, int or "_"-free string ids; '
             'temporal_dag(G,u,v,start,end) for roots in the graph, targets in {None, node, the root}, windows inside and outside the id '
             'range and start > end; the returned networkx DAG is checked for acyclicity, edge soundness against has_interaction, time '
@@ -29,19 +29,41 @@ class C15(PropBase):
 
     def random_cases(self, rnd, n):
         for _ in range(n):
-            yield graph_case(rnd)
+            c = graph_case(rnd)
+            if self.id == 'C12' and c['family'] == 'us':
+                c['family'] = 'str'      # C12 is quantified over integer or '_'-free string node ids only
+            # occurrence names: arbitrary text ids (underscores, digits, signs, blanks, empty), any instant
+            alphabet = 'ab_9- .\u00e9'
+            names = []
+            for _k in range(rnd.randint(0, 3)):
+                u = ''.join(rnd.choice(alphabet) for _j in range(rnd.randint(0, 5)))
+                v = ''.join(rnd.choice(alphabet) for _j in range(rnd.randint(0, 5)))
+                t = rnd.choice([0, 3, 10, -1, -12, 105])
+                # the root is told apart from occurrence names by equality only: keep ids that are not such names
+                if u != v and u != '%s_%d' % (v, t) and v != '%s_%d' % (u, t):
+                    names.append((u, v, t))
+            c['names'] = names
+            yield c
 
     def program(self, case):
         prog, ns, ts = base_program(case)
         for (u, v, a, b) in case['queries']:
             if u in ns:
                 prog.append(('tdag', 0, u, v, a, b))
+        for (u, v, t) in case.get('names', []):
+            prog.append(('occname', u, v, t))
         return prog
 
     def oracle(self, case, prog, ri):
         fails = []
         W = World(prog, ri)
         for i, (op, r) in enumerate(zip(prog, ri)):
+            if op[0] == 'occname':
+                _, nu, nv, nt = op
+                exp = dict(names=['%s_%d' % (nu, nt), '%s_%d' % (nv, nt)], hop=(nu, nv, nt), node_of_target=nv)
+                if r != exp:
+                    fails.append(dict(index=i, op=list(op), what='occurrences of %r -> %r at %d are named / decoded %r' % (nu, nv, nt, r)))
+                continue
             if op[0] != 'tdag':
                 continue
             _, _, u, v, a, b = op
